@@ -175,7 +175,7 @@ func init() {
 			Level: "exploration",
 			Rule: "every descriptor list of length ≤ maxLen over {close-marker, caller fds 0,1,2, four reserved low fds, two high fds} × ExecFile ∈ {none, a low number, a high number} × " +
 				"placement of the internal socketpair ∈ {two lowest reserved numbers freed so that it lands inside 0..n, just above the reserved block} × {vfork, non-vfork (sync callback)}; " +
-				"each configuration is started twice from one Runner value; the program reports its whole descriptor table; plus container.Execve with Files/ExecFile lists; plus containers built while the building process holds one or two inheritable descriptors (every 1- and 2-subset of six numbers chosen for their position in numeric and in name order), programs run twice in each. " +
+				"each configuration is started twice from one Runner value; the program reports its whole descriptor table; plus container.Execve with Files/ExecFile lists; plus containers built while the building process holds one or two inheritable descriptors (every 1- and 2-subset of six numbers chosen for their position in numeric and in name order), programs run twice in each; plus 'concurrent launch': ten operations A (launches in every mode, a failing launch, a namespace-runner run, container build+destroy, host side of Execve and Open, memfd copy + pipe collector) run on a thread that is stopped with ptrace at EVERY system-call boundary, and at each boundary a complete launch B from another goroutine must produce a program with exactly its own descriptors (all interleavings of A with one atomic B). " +
 				"non-trivial: the list is not the identity mapping 0..n-1; distinct = (list, exec, gap, vfork, observed table shape)",
 			Bound:       map[string]any{"max_len": maxLen},
 			Assumptions: []string{"identity of an open file = (st_dev, st_ino) seen by fstat on both sides", "all descriptors of the launching process are close-on-exec (set by the harness), so any extra descriptor in the program was put there by the library"},
@@ -193,7 +193,10 @@ func init() {
 		}
 		spec.Fini = func() { c09pool.drop(); cleanupTmp() }
 		spec.Body = func(x *mc.X) {
-			switch x.Choose(4, "family") {
+			switch x.Choose(5, "family") {
+			case 4:
+				c06xConcurrent(x)
+				return
 			case 1:
 				c06container(x)
 				return
